@@ -21,6 +21,7 @@ import json
 import math
 import os
 import random
+import shutil
 import tempfile
 
 from harness import core
@@ -100,9 +101,20 @@ def make_forms(case, rnd, full):
         {'model': 'list', 'net': perm, 'mlist': perm, 'extra': False},       # list in network order
         {'model': 'list', 'net': rev, 'mlist': perm, 'extra': True},         # shuffled list + extra species
     ]
+    others.append({'model': 'list', 'net': ident, 'mlist': perm + perm[:1], 'extra': False, 'dup': True})
+    if _thermdat_writable(case):
+        others.append({'model': 'thermdat_w', 'net': perm, 'mlist': rev, 'extra': False})
     differs = {'model': 'list', 'net': ident, 'mlist': rev, 'extra': thermdat}   # list reversed w.r.t. network
     case['forms'] = [first, differs] + (others if full else [others[rnd.randrange(len(others))]])
     return case
+
+
+def _thermdat_writable(case):
+    """NASA-7 species with names a thermdat line can carry (the writer/reader are C05's subject)."""
+    if case['kind'] == 'thermdat':
+        return False
+    return all(s.get('cls', 'nasa') == 'nasa' and s.get('phase') == 'G' and len(s['name']) <= 12
+               and all(ch.isalnum() for ch in s['name']) for s in case['species'])
 
 
 def _build(case):
@@ -125,16 +137,38 @@ def _build(case):
         x['name'] = 'XTRA_not_in_network'
         extras = L.make_species([x])
 
+    ftype = (case.get('types') or {}).get('feed', 'float')
+
     def factory(form):
-        net = {names[i]: case['feed'][i] for i in form['net']}      # what the user states: name -> amount
+        """-> (constructor call, G/RT function of the species the object holds, cleanup)"""
+        # what the user states: species name -> amount (in the number type of this case)
+        net = {names[i]: L.typed(case['feed'][i], ftype) for i in form['net']}
+        nothing = lambda: None
         if form['model'] == 'thermdat':
-            return Equilibrium.from_thermdat(os.path.join(core.REPO, L.THERMDAT), net)
+            path = os.path.join(core.REPO, L.THERMDAT)
+            return (lambda: Equilibrium.from_thermdat(path, net)), gfun, nothing
+        if form['model'] == 'thermdat_w':
+            # the case's own species written by write_thermdat (harness side; the writer and the
+            # reader are C05's subject) and handed to from_thermdat
+            from pmutt.io.thermdat import write_thermdat, read_thermdat
+            d = tempfile.mkdtemp(prefix='c16_thermdat_')
+            path = os.path.join(d, 'thermdat')
+            try:
+                write_thermdat([species[i] for i in form['mlist']], filename=path)
+                back = read_thermdat(path, 'dict')
+            except Exception as ex:
+                shutil.rmtree(d, ignore_errors=True)
+                raise core.MachineryError('could not prepare the thermdat file of case %s: %r' % (case['cid'], ex))
+            return ((lambda: Equilibrium.from_thermdat(path, net)),
+                    (lambda T: [float(back[nm].get_GoRT(T=T)) for nm in names]),
+                    (lambda: shutil.rmtree(d, ignore_errors=True)))
         if form['model'] == 'dict':
-            return Equilibrium(model={names[i]: species[i] for i in range(len(names))}, network=net)
+            model = {names[i]: species[i] for i in range(len(names))}
+            return (lambda: Equilibrium(model=model, network=net)), gfun, nothing
         lst = [species[i] for i in form['mlist']]
         if form.get('extra'):
             lst = extras[:1] + lst + extras[1:]
-        return Equilibrium(model=lst, network=net)
+        return (lambda: Equilibrium(model=lst, network=net)), gfun, nothing
 
     def gfun(T):
         return [float(sp.get_GoRT(T=T)) for sp in species]
@@ -146,12 +180,14 @@ def _list_differs(form, feed):
     symmetric under that permutation (the amounts would land on other species)."""
     if form['model'] != 'list':
         return False
-    return [feed[i] for i in form['net']] != [feed[i] for i in form['mlist']]
+    return [feed[i] for i in form['net']] != [feed[i] for i in form['mlist'][:len(form['net'])]]
 
 
-def _solve_event(rec, eq, names, E, fed, gfun, T, P, key, first, forced):
-    obs = L.observe_call(rec, lambda: eq.get_net_comp(T=T, P=P), force_fail=forced)
-    ev = {'ev': 'solve', 'T': to_dec(T), 'P': to_dec(P), 'key': key, 'first': first,
+def _solve_event(rec, eq, names, E, fed, gfun, T, P, key, first, forced, types=None, again=False):
+    types = types or {}
+    Tt, Pt = L.typed(T, types.get('T', 'float')), L.typed(P, types.get('P', 'float'))
+    obs = L.observe_call(rec, lambda: eq.get_net_comp(T=Tt, P=Pt), force_fail=forced)
+    ev = {'ev': 'solve', 'T': to_dec(T), 'P': to_dec(P), 'key': key, 'first': first, 'again': again,
           'forced': forced, 'out': obs['out'], 'status': obs['status'], 'how': obs['how'],
           'sig': obs['sig'], 'num': False, 'finite': True, 'pos': True}
     info = {'out': obs['out'], 'status': obs['status'], 'how': obs['how'], 'sig': obs['sig'],
@@ -167,13 +203,21 @@ def _solve_event(rec, eq, names, E, fed, gfun, T, P, key, first, forced):
             info['exc'] = 'result: %s' % ex
             return ev, info
         info['moles'] = n
-        if not (L._finite(n) and L._finite(frac)):
+        try:
+            echo = [float(res.T), float(res.P)]
+        except Exception:
+            echo = [float('nan'), float('nan')]
+        if not (L._finite(n) and L._finite(frac) and L._finite(echo)):
             ev['finite'] = False
             return ev, info
+        ev['echoT'], ev['echoP'] = to_dec(echo[0]), to_dec(echo[1])
+        ev['listed'] = bool(sorted(sp) == sorted(names) and len(res.moles) == len(names)
+                            and len(res.mole_frac) == len(names))
         if min(n) <= 0.0:
             ev['pos'] = False
             ev['n'] = [to_dec(x) for x in n]
             ev['frac'] = [to_dec(x) for x in frac]
+            ev['ntot'] = to_dec(math.fsum(n))
             return ev, info
         g = gfun(T)
         if not L._finite(g):
@@ -202,16 +246,23 @@ def _execute(case, rec):
     events, mism, infos = [], [], []
     forms = _forms(case)
     exp = case.get('expect')
+    first_pt = None
     for oi, form in enumerate(forms):
-        fname = '%s%s/net%s' % (form['model'], '+extra' if form.get('extra') else '',
-                                'A' if form['net'] == list(range(N)) else 'P')
+        fname = '%s%s%s/net%s' % (form['model'], '+extra' if form.get('extra') else '',
+                                  '+dup' if form.get('dup') else '',
+                                  'A' if form['net'] == list(range(N)) else 'P')
         differs = _list_differs(form, feed)
-        obs = L.observe_call(rec, lambda: factory(form))
+        construct, gform, cleanup = factory(form)
+        try:
+            obs = L.observe_call(rec, construct)
+        finally:
+            cleanup()
         raised = obs['how'] == 'raise'
         ev = {'ev': 'init', 'first': oi == 0, 'E': E, 'feed': [_dec_feed(x) for x in feed],
               'raised': raised, 'libEint': False, 'libE': [], 'libtot': [], 'form': fname,
               'listdiffers': differs}
-        infos.append({'phase': 'form', 'form': form['model'], 'listdiffers': differs, 'raised': raised})
+        infos.append({'phase': 'form', 'form': form['model'] + ('+extra' if form.get('extra') else '')
+                      + ('+dup' if form.get('dup') else ''), 'listdiffers': differs, 'raised': raised})
         if raised:
             infos.append({'phase': 'init', 'exc': obs['exc']})
             events.append(ev)
@@ -232,23 +283,31 @@ def _execute(case, rec):
                 events.append(sev)
                 infos.append(info)
             continue
+        Ts = set()
+        npts = 0
         for k, (T, P) in enumerate(case['points']):
-            sev, info = _solve_event(rec, eq, names, E, fed, gfun, T, P, key=k + 1,
-                                     first=oi == 0, forced=False)
+            g = gfun(T)
+            if max(g) - min(g) > 60.0:               # outside the quantifier (G/RT span) at this T
+                infos.append({'phase': 'skipped_point'})
+                continue
+            sev, info = _solve_event(rec, eq, names, E, fed, gform, T, P, key=k + 1,
+                                     first=oi == 0, forced=False, types=case.get('types'))
             sev['form'], sev['listdiffers'] = fname, differs
             events.append(sev)
             infos.append(info)
-            if oi == 0 and k == 0 and info['moles'] is not None:
-                # the same call repeated on the same object: same numbers (history independent)
-                again = L.observe_call(rec, lambda: eq.get_net_comp(T=T, P=P))
-                if again['how'] == 'return' and again['out'] == 'converged':
-                    sp = list(again['result'].species)
-                    n2 = [float(again['result'].moles[sp.index(nm)]) for nm in names]
-                    if n2 != info['moles']:
-                        mism.append({'what': 'Repeatable', 'first': info['moles'], 'second': n2})
-                else:
-                    mism.append({'what': 'Repeatable', 'first': 'converged',
-                                 'second': [again['out'], again['how']]})
+            Ts.add(T)
+            npts += 1
+            first_pt = first_pt if npts > 1 else (k, T, P)
+        if oi == 0 and npts >= 1:
+            # the first call once more, after whatever else was asked of this object
+            k, T, P = first_pt
+            sev, info = _solve_event(rec, eq, names, E, fed, gform, T, P, key=k + 1,
+                                     first=False, forced=False, types=case.get('types'), again=True)
+            sev['form'], sev['listdiffers'] = fname, differs
+            events.append(sev)
+            info['again'] = True
+            infos.append(info)
+            infos.append({'phase': 'history', 'calls': npts + 1, 'temperatures': len(Ts)})
     if exp is not None:
         B, _, _, _ = L.null_basis(E)
         dep, fz = L.degeneracy_certificates(E, fed)
@@ -324,6 +383,80 @@ def _in_quantifier(case):
     return pts
 
 
+REQUIRED_INPUT_CLASSES = (
+    ['species_%d' % n for n in range(2, 13)] + ['elements_%d' % n for n in range(1, 5)]
+    + ['element_two_letters', 'more_elements_than_species', 'names_plain', 'names_formula', 'names_decorated',
+       'feed_mixed', 'feed_onehot', 'feed_all', 'feed_tiny', 'feed_int',
+       'scale_1e-06', 'scale_0.001', 'scale_1', 'scale_1000', 'scale_1e+06',
+       'T_int', 'T_np.float64', 'T_np.int64', 'P_int', 'P_np.float64', 'P_np.int64',
+       'feedtype_int', 'feedtype_np.float64', 'feedtype_np.int64',
+       'T_300', 'T_2500', 'T_next_to_300', 'T_next_to_2500', 'T_at_Tmid', 'T_next_to_Tmid',
+       'P_0.01', 'P_100', 'P_next_to_0.01', 'P_next_to_100',
+       'span_0', 'span_near_60', 'nasa_distinct_ranges', 'nasa_phase_G', 'nasa_phase_gas', 'nasa_phase_unset',
+       'thermo_nasa', 'thermo_nasa9', 'thermo_shomate', 'thermo_statmech',
+       'inert_diluent', 'dependent_balances', 'several_temperatures'])
+
+
+def _input_classes(case):
+    """Names of the input classes of the quantifier this case belongs to (vacuity counters)."""
+    if case['kind'] in ('beh', 'thermdat'):
+        return []
+    out = []
+    sp = case['species']
+    els = case['elements']
+    out.append('species_%d' % len(sp))
+    out.append('elements_%d' % len(els))
+    if any(len(e) == 2 for e in els):
+        out.append('element_two_letters')
+    if len(els) > len(sp):
+        out.append('more_elements_than_species')
+    if 'namestyle' in case:
+        out.append('names_' + ['plain', 'formula', 'decorated'][case['namestyle']])
+        out.append('feed_' + case['feedkind'])
+        out.append('scale_%g' % case['scale'])
+        t = case['types']
+        for k, pre in (('T', 'T_'), ('P', 'P_'), ('feed', 'feedtype_')):
+            if t[k] != 'float':
+                out.append(pre + t[k])
+        g = None
+    for T, P in case['points']:
+        for v, nm in ((300.0, '300'), (2500.0, '2500'), (1000.0, 'at_Tmid')):
+            if T == v:
+                out.append('T_' + nm if nm[0].isdigit() else 'T_' + nm)
+        for v, nm in ((300.0, '300'), (2500.0, '2500'), (1000.0, 'Tmid')):
+            if T != v and abs(T - v) < 1e-9:
+                out.append('T_next_to_' + nm)
+        for v, nm in ((0.01, '0.01'), (100.0, '100')):
+            if P == v:
+                out.append('P_' + nm)
+            elif abs(P - v) < 1e-12 * v * 1e3:
+                out.append('P_next_to_' + nm)
+    if len({T for T, P in case['points']}) > 1:
+        out.append('several_temperatures')
+    if case['kind'] in ('rand', 'wellcond'):
+        T0 = case['points'][0][0]
+        gs = [float(o.get_GoRT(T=T0)) for o in L.make_species(sp)] if case.get('_span') is None else None
+        span = max(gs) - min(gs)
+        if span == 0.0 or span < 1e-9:
+            out.append('span_0')
+        if 59.0 <= span <= 60.0:
+            out.append('span_near_60')
+    for s_ in sp:
+        cls = s_.get('cls', 'nasa')
+        out.append('thermo_' + cls)
+        if cls == 'nasa':
+            if s_.get('a_low') != s_.get('a_high'):
+                out.append('nasa_distinct_ranges')
+            out.append('nasa_phase_' + {None: 'unset', 'G': 'G', 'gas': 'gas'}[s_.get('phase')])
+    if case['kind'] == 'inert':
+        out.append('inert_diluent')
+    E = [[int(s_['formula'].get(e, 0)) for e in els] for s_ in sp]
+    import numpy as np
+    if np.linalg.matrix_rank(np.array(E, dtype=float)) < len(els):
+        out.append('dependent_balances')
+    return sorted(set(out))
+
+
 def _signature(case):
     if case['kind'] == 'thermdat':
         return json.dumps(['t', case['names'], case['feed'], case['points']])
@@ -393,10 +526,13 @@ def run(ctx):
         plain = [c for c in tcases if not (c['dep'] or c['fz'] or len(c['els']) == 1)]
         n_t = ctx.pick(90, len(tcases))
         pick = special[:max(1, n_t // 4)] + plain[:n_t - max(1, n_t // 4)]
-        cases = [L.tlc_case(rnd, 'n%d' % k, c) for k, c in enumerate(pick)]
+        cases = [L.tlc_case(rnd, 'n%d' % k, c, k) for k, c in enumerate(pick)]
         cases += _beh_cases(behs)
-        cases += [L.random_case(rnd, 'r%d' % k) for k in range(ctx.pick(110, 1500))]
-        cases += [L.random_case(rnd, 'w%d' % k, wellcond=True) for k in range(ctx.pick(50, 500))]
+        off = 7 * ctx.seed                       # the strata rotate with the seed
+        cases += [L.random_case(rnd, 'r%d' % k, k=k + off) for k in range(ctx.pick(110, 1500))]
+        cases += [L.random_case(rnd, 'w%d' % k, wellcond=True, k=k + off) for k in range(ctx.pick(48, 500))]
+        cases += [L.inert_case(rnd, 'i%d' % k, k) for k in range(ctx.pick(8, 80))]
+        cases += [L.classes_case(rnd, 'k%d' % k, k) for k in range(ctx.pick(12, 120))]
         th = _thermdat_cases(rnd, ctx.pick(4, 60))
         for c in th:
             c['points'] = _in_quantifier(c)
@@ -418,7 +554,13 @@ def run(ctx):
         solved = [i for i in infos if i.get('out')]
         if any((i['out'] == 'converged' and i.get('k', 0) >= 1) or i['out'] == 'failed' for i in solved):
             ctx.nontrivial(_signature(case))
+        for key in _input_classes(case):
+            ctx.count('in_' + key)
         for i in infos:
+            if i.get('phase') == 'history':
+                ctx.count('objects_called_again_after_other_calls')
+                if i['temperatures'] > 1:
+                    ctx.count('objects_called_at_several_temperatures')
             if i.get('phase') == 'form':
                 ctx.count('objects_model_' + i['form'])
                 if i['listdiffers']:
@@ -483,6 +625,12 @@ def run(ctx):
         finally:
             os.unlink(path)
     if ctx.replay_case is None:
+        missing = [k for k in REQUIRED_INPUT_CLASSES if not ctx.coverage.get('in_' + k)]
+        missing += [k for k in ('objects_model_list+dup', 'objects_model_list+extra', 'objects_model_thermdat_w',
+                                'objects_called_at_several_temperatures', 'objects_called_again_after_other_calls')
+                    if not ctx.coverage.get(k)]
+        if missing:
+            raise core.MachineryError('vacuous run: input classes of the quantifier not exercised: %r' % missing)
         if ctx.coverage.get('objects_model_list_in_other_order_than_network', 0) < 30 \
                 or ctx.coverage.get('objects_model_dict', 0) < 30 or ctx.coverage.get('objects_model_thermdat', 0) < 2:
             raise core.MachineryError('vacuous run: construction forms not exercised: %r'
